@@ -133,6 +133,11 @@ func (g *rxGen) pattern() string {
 	if rapid.IntRange(0, 7).Draw(g.rt, "flag") == 0 {
 		p = "(?i)" + p
 	}
+	if rapid.IntRange(0, 9).Draw(g.rt, "longpattern") == 9 {
+		// longer than 128 / 256 bytes, with an alternative at the very end that matters
+		n := rapid.SampledFrom([]int{26, 52}).Draw(g.rt, "padding")
+		p = "(?:" + p + ")" + strings.Repeat("|a{9}", n) + "|" + rapid.SampledFrom([]string{"A", "1", " ", "c"}).Draw(g.rt, "tail")
+	}
 	return p
 }
 
